@@ -286,7 +286,7 @@ func runC13(c *Ctx) {
 		good := true
 		zoneOK := true
 		n := 0
-		eachInstr(ct, func(in ssa.Instruction) {
+		eachInstrDeep(ct, func(_ *ssa.Function, in ssa.Instruction) {
 			ci, ok := in.(*ssa.Call)
 			if !ok {
 				return
@@ -296,7 +296,9 @@ func runC13(c *Ctx) {
 				return
 			}
 			n++
-			a := ci.Call.Args[1]
+			// the address may live in a variable cell (it is reassigned and captured by a sort.Search closure): what the
+			// use sees is the value of the last assignment in Contains
+			a := lastAssigned(ct, ci.Call.Args[1])
 			// D19: … and has its zone dropped: to6(addr).WithZone("") — the rule side has no zones (netip.PrefixFrom drops
 			// them) and netip.Prefix.Contains never contains a zoned address
 			if wz, ok := a.(*ssa.Call); ok && callName(wz) == "(net/netip.Addr).WithZone" {
@@ -308,7 +310,7 @@ func runC13(c *Ctx) {
 			} else {
 				zoneOK = false
 			}
-			if cl, ok := a.(*ssa.Call); !ok || staticCallee(cl) != to6 || cl.Call.Args[0] != ssa.Value(ct.Params[1]) {
+			if cl, ok := a.(*ssa.Call); !ok || staticCallee(cl) != to6 || !isParamOrItsSpill(cl.Call.Args[0], ct.Params[1], cl) {
 				good = false
 			}
 		})
@@ -394,6 +396,9 @@ func runC13(c *Ctx) {
 						if n, ok := constInt(cm.Y); ok && n == 0 {
 							if _, isPhi := cm.X.(*ssa.Phi); isPhi {
 								okG = true
+							}
+							if sc, isC := cm.X.(*ssa.Call); isC && callName(sc) == "sort.Search" {
+								okG = true // the index found by the library's binary search
 							}
 						}
 					}
@@ -485,7 +490,25 @@ func runC13(c *Ctx) {
 		})
 		c.check(good, "full-length@LoadFromText", f.Pos(), "a bare address becomes /32 or /128 by family", "a bare address is not loaded as a /32 (IPv4) or /128 (IPv6) prefix")
 	}
-	if f := c.fn("plugin/data_provider/ip_set", "", "parseNetipPrefix"); f != nil {
+	// the ip_set plugin's own parser — if it was removed in favour of the package's loader (checked above), nothing of
+	// the plugin parses addresses any more and there is nothing to check here
+	ipSetParser := c.P.Func("plugin/data_provider/ip_set", "", "parseNetipPrefix")
+	if ipSetParser == nil || len(ipSetParser.Blocks) == 0 {
+		parses := false
+		for _, g := range c.P.funcsIn("plugin/data_provider/ip_set") {
+			eachInstr(g, func(in ssa.Instruction) {
+				if cl, ok := in.(*ssa.Call); ok && (callName(cl) == "net/netip.ParsePrefix" || callName(cl) == "net/netip.ParseAddr") {
+					parses = true
+				}
+			})
+		}
+		if !parses {
+			c.ok("full-length@parseNetipPrefix", 0, "the ip_set plugin has no parser of its own (it loads through netlist.LoadFromText)")
+		} else {
+			c.anchorMissing("plugin/data_provider/ip_set.parseNetipPrefix")
+		}
+	}
+	if f := ipSetParser; f != nil && len(f.Blocks) > 0 {
 		good := false
 		eachInstr(f, func(in ssa.Instruction) {
 			if ci, ok := in.(*ssa.Call); ok && callName(ci) == "(net/netip.Addr).Prefix" {
@@ -549,4 +572,73 @@ func guardHoldsAt(g guard, b *ssa.BasicBlock) bool {
 		}
 	}
 	return false
+}
+
+// lastAssigned: v is a load of a local variable cell of top (directly, or through a closure's free variable): the value
+// of the last store to the cell in top (the one every other store of top dominates), with the initial spill of a
+// parameter skipped when the variable is reassigned; v itself otherwise.
+func lastAssigned(top *ssa.Function, v ssa.Value) ssa.Value {
+	ld, ok := v.(*ssa.UnOp)
+	if !ok || ld.Op != token.MUL {
+		return v
+	}
+	cell := resolveAddr(ld.X)
+	al, ok := cell.(*ssa.Alloc)
+	if !ok || al.Parent() != top {
+		return v
+	}
+	var stores []*ssa.Store
+	for _, r := range referrers(al) {
+		if st, ok := r.(*ssa.Store); ok && st.Addr == ssa.Value(al) {
+			stores = append(stores, st)
+		}
+	}
+	var last *ssa.Store
+	for _, st := range stores {
+		isLast := true
+		for _, o := range stores {
+			if o != st && !instrDominates(o, st) {
+				isLast = false
+			}
+		}
+		if isLast {
+			last = st
+		}
+	}
+	if last == nil {
+		return v
+	}
+	return last.Val
+}
+
+// isParamOrItsSpill: v is the parameter itself, or a load of the parameter's variable cell at a point (at) that only the
+// initial spill of the parameter reaches (no other store to the cell dominates or can precede it).
+func isParamOrItsSpill(v ssa.Value, prm *ssa.Parameter, at ssa.Instruction) bool {
+	if v == ssa.Value(prm) {
+		return true
+	}
+	ld, ok := v.(*ssa.UnOp)
+	if !ok || ld.Op != token.MUL {
+		return false
+	}
+	al, ok := ld.X.(*ssa.Alloc)
+	if !ok {
+		return false
+	}
+	spill := false
+	for _, r := range referrers(al) {
+		st, ok := r.(*ssa.Store)
+		if !ok || st.Addr != ssa.Value(al) {
+			continue
+		}
+		if st.Val == ssa.Value(prm) {
+			spill = true
+			continue
+		}
+		// another assignment: it must not be able to run before the load
+		if _, before := reachAvoiding(st, func(x ssa.Instruction) bool { return x == ssa.Instruction(ld) }, nil); before {
+			return false
+		}
+	}
+	return spill
 }
